@@ -104,6 +104,62 @@ def detect(sdir, tier, props):
     return res
 
 
+def collect_neutral(wt, gid, props):
+    """import out1..out3 of a refactoring worktree as neutral/<gid><a|b|c> (behaviour-preserving changes: the checks must NOT report a
+    concrete failing input for them and must not crash)"""
+    new = []
+    for sub, suf in zip(("out1", "out2", "out3"), "abc"):
+        src = os.path.join(wt, sub)
+        if not all(os.path.exists(os.path.join(src, f)) for f in ("patch.diff", "meta.json")):
+            continue
+        dst = os.path.join(V, "neutral", gid + suf)
+        os.makedirs(dst, exist_ok=True)
+        for f in ("patch.diff", "meta.json", "check_equiv.py"):
+            if os.path.exists(os.path.join(src, f)):
+                shutil.copy(os.path.join(src, f), os.path.join(dst, f))
+        m = json.load(open(os.path.join(dst, "meta.json")))
+        m["properties"] = props
+        m["property"] = props[0]
+        json.dump(m, open(os.path.join(dst, "meta.json"), "w"), indent=1, ensure_ascii=False)
+        new.append(dst)
+    return new
+
+
+def process_neutral(sdir):
+    """tests still pass with the patch?  then every listed property's quick check against the patched tree"""
+    rp = os.path.join(sdir, "result.json")
+    if os.path.exists(rp):
+        return os.path.basename(sdir), json.load(open(rp)).get("summary")
+    meta = json.load(open(os.path.join(sdir, "meta.json")))
+    d = worktree()
+    out = {}
+    try:
+        r = sh(["git", "-C", d, "apply", os.path.abspath(os.path.join(sdir, "patch.diff"))])
+        out["patch_applies"] = r.returncode == 0
+        if r.returncode == 0:
+            env = dict(os.environ, PYTHONPATH=d, PYTHONDONTWRITEBYTECODE="1")
+            r = sh([PY, "-m", "pytest", "-q", "-p", "no:cacheprovider", "--timeout=900"], cwd=d, env=env, timeout=3600)
+            out["tests_pass"] = r.returncode == 0
+    finally:
+        drop(d)
+    if out.get("patch_applies") and out.get("tests_pass"):
+        det = detect(sdir, "quick", meta["properties"])
+        out["checks"] = det
+        summ = {}
+        for p_, r_ in det.items():
+            if r_["exit"] == 0:
+                summ[p_] = "pass"
+            elif r_["exit"] == 1 and any("no-failing-input-found" in l for l in r_["lines"]):
+                summ[p_] = "VIOLATION no-failing-input-found (tolerated: a proof obligation / the bit-exact correspondence broke)"
+            elif r_["exit"] == 1:
+                summ[p_] = "FALSE ALARM: VIOLATION with a concrete input"
+            else:
+                summ[p_] = "INFRASTRUCTURE FAILURE (exit %s)" % r_["exit"]
+        out["summary"] = summ
+    json.dump(out, open(rp, "w"), indent=1, default=str)
+    return os.path.basename(sdir), out.get("summary", out)
+
+
 def collect(wt, prop, suffixes):
     """import out/ and out2/ of a mutation worktree as seeded/<prop><suffix>; returns the new directories"""
     new = []
@@ -143,6 +199,17 @@ if __name__ == "__main__":
                 and not (os.path.exists(os.path.join(root, d, "detect.json")) and os.path.exists(os.path.join(root, d, "verify.json")))]
         with ThreadPoolExecutor(jobs) as ex:
             for r in ex.map(process, dirs):
+                print(time.strftime("%T"), r, flush=True)
+        sys.exit(0)
+    if sys.argv[1] == "collect-neutral":
+        print(collect_neutral(sys.argv[2], sys.argv[3], sys.argv[4].split(",")))
+        sys.exit(0)
+    if sys.argv[1] == "neutral-all":
+        from concurrent.futures import ThreadPoolExecutor
+        root = os.path.join(V, "neutral")
+        dirs = [os.path.join(root, d) for d in sorted(os.listdir(root)) if os.path.exists(os.path.join(root, d, "meta.json"))]
+        with ThreadPoolExecutor(int(sys.argv[2]) if len(sys.argv) > 2 else 3) as ex:
+            for r in ex.map(process_neutral, dirs):
                 print(time.strftime("%T"), r, flush=True)
         sys.exit(0)
     if sys.argv[1] == "collect":
